@@ -295,7 +295,10 @@ impl Check for ArpResolution {
                 }
                 let (ri, rj) = (res.iter().find(|r| r.id == i).unwrap(), res.iter().find(|r| r.id == j).unwrap());
                 let overlap = ri.start < rj.end && rj.start < ri.end;
-                if overlap {
+                // an Err and an Ok are both right when they end in the same instant: the retry budget of one call ran out in
+                // the very instant in which the reply for the other arrived (either may come first within that instant)
+                let same_instant_err_ok = ri.end == rj.end && ri.result.is_ok() != rj.result.is_ok();
+                if overlap && !same_instant_err_ok {
                     ensure!(ri.result == rj.result, "concurrent_resolvers_agree", "different_answers", "calls {i} and {j} on machine {} for {} overlapped in time but returned {:?} and {:?}", calls[i].0, Ipv4Address::from(eff[i].0), ri.result, rj.result);
                     ctx.class("concurrent_resolvers");
                 }
